@@ -392,6 +392,33 @@ func vpH_C09_chg_activity_type_case() {
 	vpReach("end")
 }
 
+// the object embedded in an activity gains a property on the copy: comparing the original with the
+// copy (the copy as the argument, whose set properties are the ones compared) says unequal
+func vpH_C09_chg_embedded_gains_property() {
+	id := vpMkIRI('o')
+	mk := func(extra bool) *Object {
+		o := &Object{ID: id, Type: NoteType, Name: NaturalLanguageValues{{Ref: NilLangRef, Value: Content("n")}}}
+		if extra {
+			o.Summary = NaturalLanguageValues{{Ref: NilLangRef, Value: Content("s")}}
+		}
+		return o
+	}
+	var x, y Item
+	switch vpChoice(4) {
+	case 0:
+		x, y = &Activity{ID: "https://h.ex/i", Type: CreateType, Object: mk(false)}, &Activity{ID: "https://h.ex/i", Type: CreateType, Object: mk(true)}
+	case 1:
+		x, y = &Activity{ID: "https://h.ex/i", Type: LikeType, Actor: mk(false), Object: IRI("https://h.ex/z")}, &Activity{ID: "https://h.ex/i", Type: LikeType, Actor: mk(true), Object: IRI("https://h.ex/z")}
+	case 2:
+		x, y = &Activity{ID: "https://h.ex/i", Type: AddType, Target: mk(false)}, &Activity{ID: "https://h.ex/i", Type: AddType, Target: mk(true)}
+	default:
+		x, y = &Object{ID: "https://h.ex/i", Type: NoteType, Icon: mk(false)}, &Object{ID: "https://h.ex/i", Type: NoteType, Icon: mk(true)}
+	}
+	vpAssert("gains-property/original-vs-copy-unequal", !ItemsEqual(x, y))
+	vpAssert("gains-property/reflexive", ItemsEqual(x, x) && ItemsEqual(y, y))
+	vpReach("end")
+}
+
 func vpH_C09_chg_id() {
 	ti := vpChoice(3)
 	x := vpNew(ti)
